@@ -257,6 +257,8 @@ func (c *trCtx) stmts(list []ast.Stmt, k trCont) (string, error) {
 		return c.switchStmt(x, rest)
 	case *ast.RangeStmt:
 		return c.rangeStmt(x, rest)
+	case *ast.ForStmt:
+		return c.forStmt(x, rest)
 	}
 	return "", trErr("statement %T is outside the subset: %s", list[0], firstLineOf(exprText(c.fset, list[0])))
 }
@@ -483,10 +485,23 @@ func (c *trCtx) assigned(list []ast.Stmt) ([]string, error) {
 	return out, bad
 }
 
+// loopSpec: a loop as a left fold over `list`; inside the body the Go variables
+// `vars` are bound to Lean expressions over the element `x_`.
+type loopVar struct {
+	name string
+	lean string
+	ty   trTy
+}
+
+type loopSpec struct {
+	list string
+	vars []loopVar
+	body []ast.Stmt
+}
+
 // `for i := range s` / `for _, b := range s` / `for i, b := range s` over a
 // string of bytes ([]byte, or a string the target declares to hold single-byte
-// characters only): a left fold over the list (with its indices), the state
-// being the outer variables the body assigns.
+// characters only)
 func (c *trCtx) rangeStmt(x *ast.RangeStmt, rest trCont) (string, error) {
 	if x.Tok != token.DEFINE {
 		return "", trErr("range without :=")
@@ -501,16 +516,6 @@ func (c *trCtx) rangeStmt(x *ast.RangeStmt, rest trCont) (string, error) {
 	if id, ok := x.X.(*ast.Ident); ok && c.strVars[id.Name] && !c.t.rangeBytes {
 		return "", trErr("range over the string %s yields runes (target not marked rangeBytes)", id.Name)
 	}
-	if hasReturn(x.Body) {
-		return c.rangeReturn(x, s, rest)
-	}
-	state, err := c.assigned(x.Body.List)
-	if err != nil {
-		return "", err
-	}
-	if len(state) == 0 {
-		return "", trErr("loop without effect on a local variable")
-	}
 	key, val := "", ""
 	if id, ok := x.Key.(*ast.Ident); ok && id.Name != "_" {
 		key = id.Name
@@ -519,6 +524,138 @@ func (c *trCtx) rangeStmt(x *ast.RangeStmt, rest trCont) (string, error) {
 		if id, ok := x.Value.(*ast.Ident); ok && id.Name != "_" {
 			val = id.Name
 		}
+	}
+	sp := loopSpec{list: s, body: x.Body.List}
+	if key != "" {
+		sp.list = fmt.Sprintf("(List.zip (List.range (List.length %s)) %s)", s, s)
+		sp.vars = append(sp.vars, loopVar{key, "(Int.ofNat x_.1)", tyInt})
+		if val != "" {
+			sp.vars = append(sp.vars, loopVar{val, "x_.2", tyByte})
+		}
+	} else if val != "" {
+		sp.vars = append(sp.vars, loopVar{val, "x_", tyByte})
+	}
+	return c.loop(sp, rest)
+}
+
+// `for i := lo; i < hi; i++` (or `<=`): a fold over `lo, lo+1, …`; the bound is
+// evaluated once, so neither it nor `i` may be assigned in the body.
+func (c *trCtx) forStmt(x *ast.ForStmt, rest trCont) (string, error) {
+	init, ok := x.Init.(*ast.AssignStmt)
+	if !ok || init.Tok != token.DEFINE || len(init.Lhs) != 1 || len(init.Rhs) != 1 {
+		return "", trErr("for loop without `i := lo`")
+	}
+	iv, ok := init.Lhs[0].(*ast.Ident)
+	if !ok {
+		return "", trErr("for loop variable")
+	}
+	cond, ok := x.Cond.(*ast.BinaryExpr)
+	if !ok || (cond.Op != token.LSS && cond.Op != token.LEQ) {
+		return "", trErr("for loop condition %s (only `i < hi` / `i <= hi`)", exprText(c.fset, x.Cond))
+	}
+	if ci, ok := cond.X.(*ast.Ident); !ok || ci.Name != iv.Name {
+		return "", trErr("for loop condition is not about %s", iv.Name)
+	}
+	post, ok := x.Post.(*ast.IncDecStmt)
+	if !ok || post.Tok != token.INC {
+		return "", trErr("for loop without `i++`")
+	}
+	if pi, ok := post.X.(*ast.Ident); !ok || pi.Name != iv.Name {
+		return "", trErr("for loop increments another variable")
+	}
+	if _, shadow := c.vars[iv.Name]; shadow {
+		return "", trErr("for loop variable %s shadows a variable", iv.Name)
+	}
+	lo, lt, err := c.expr(init.Rhs[0], tyInt)
+	if err != nil {
+		return "", err
+	}
+	hi, ht, err := c.expr(cond.Y, tyInt)
+	if err != nil {
+		return "", err
+	}
+	if lt != tyInt || ht != tyInt {
+		return "", trErr("for loop bounds are not integers")
+	}
+	// the bound must not change during the loop
+	c.allowLoopReturn = true
+	as, _ := c.assigned(x.Body.List)
+	c.allowLoopReturn = false
+	bad := false
+	ast.Inspect(cond.Y, func(n ast.Node) bool {
+		if id, ok := n.(*ast.Ident); ok {
+			for _, a := range as {
+				if a == id.Name {
+					bad = true
+				}
+			}
+		}
+		return true
+	})
+	ast.Inspect(&ast.BlockStmt{List: x.Body.List}, func(n ast.Node) bool {
+		switch y := n.(type) {
+		case *ast.AssignStmt:
+			for _, l := range y.Lhs {
+				if id, ok := l.(*ast.Ident); ok && id.Name == iv.Name {
+					bad = true
+				}
+			}
+		case *ast.IncDecStmt:
+			if id, ok := y.X.(*ast.Ident); ok && id.Name == iv.Name {
+				bad = true
+			}
+		}
+		return true
+	})
+	if bad {
+		return "", trErr("the loop variable or the bound is assigned in the body")
+	}
+	n := fmt.Sprintf("(%s - %s)", hi, lo)
+	if cond.Op == token.LEQ {
+		n = fmt.Sprintf("((%s + (1 : Int)) - %s)", hi, lo)
+	}
+	sp := loopSpec{list: fmt.Sprintf("(List.range (Int.toNat %s))", n), body: x.Body.List,
+		vars: []loopVar{{iv.Name, fmt.Sprintf("(%s + (Int.ofNat x_))", lo), tyInt}}}
+	return c.loop(sp, rest)
+}
+
+// loop: (a) no `return` in the body – the state is the tuple of the outer
+// variables the body assigns; (b) the body may `return` and assigns nothing –
+// `List.foldl (fun st x => st.or (body x)) none list` and `Option.getD … rest`.
+func (c *trCtx) loop(sp loopSpec, rest trCont) (string, error) {
+	withRet := hasReturn(&ast.BlockStmt{List: sp.body})
+	c.allowLoopReturn = withRet
+	state, err := c.assigned(sp.body)
+	c.allowLoopReturn = false
+	if err != nil {
+		return "", err
+	}
+	// the loop's own variables are not state
+	var st2 []string
+	for _, v := range state {
+		own := false
+		for _, lv := range sp.vars {
+			if lv.name == v {
+				own = true
+			}
+		}
+		if !own {
+			st2 = append(st2, v)
+		}
+	}
+	state = st2
+	if withRet {
+		if c.t.from != "" || c.t.retLean == "" {
+			return "", trErr("loop with return needs a whole-function target with retLean")
+		}
+		if len(state) != 0 {
+			return "", trErr("loop with return that also assigns %v", state)
+		}
+		if c.loopRet != nil {
+			return "", trErr("nested loops with return")
+		}
+	} else if len(state) == 0 {
+		return "", trErr("loop without effect on a local variable")
 	}
 	tuple := func() string {
 		var ns []string
@@ -530,25 +667,24 @@ func (c *trCtx) rangeStmt(x *ast.RangeStmt, rest trCont) (string, error) {
 		}
 		return "(" + strings.Join(ns, ", ") + ")"
 	}
-	// unpack the state
-	unpack := ""
-	closers := 0
-	if len(state) == 1 {
-		unpack = fmt.Sprintf("(let %s := st_; ", leanIdent(state[0]))
-		closers = 1
-	} else {
-		acc := "st_"
-		for i, n := range state {
-			proj := acc + ".1"
-			if i == len(state)-1 {
-				proj = acc
+	unpack, closers := "", 0
+	if !withRet {
+		if len(state) == 1 {
+			unpack = fmt.Sprintf("(let %s := st_; ", leanIdent(state[0]))
+			closers = 1
+		} else {
+			acc := "st_"
+			for i, n := range state {
+				proj := acc + ".1"
+				if i == len(state)-1 {
+					proj = acc
+				}
+				unpack += fmt.Sprintf("(let %s := %s; ", leanIdent(n), proj)
+				closers++
+				acc = "(" + acc + ".2)"
 			}
-			unpack += fmt.Sprintf("(let %s := %s; ", leanIdent(n), proj)
-			closers++
-			acc = "(" + acc + ".2)"
 		}
 	}
-	// the body, with the loop variables in scope
 	savedVars := map[string]trTy{}
 	for n, t := range c.vars {
 		savedVars[n] = t
@@ -558,38 +694,38 @@ func (c *trCtx) rangeStmt(x *ast.RangeStmt, rest trCont) (string, error) {
 		savedDepth[n] = d
 	}
 	c.cur++
-	if key != "" {
-		c.vars[key], c.depth[key] = tyInt, c.cur
+	pre := ""
+	for _, lv := range sp.vars {
+		c.vars[lv.name], c.depth[lv.name] = lv.ty, c.cur
+		pre += fmt.Sprintf("(let %s := %s; ", leanIdent(lv.name), lv.lean)
+		closers++
 	}
-	if val != "" {
-		c.vars[val], c.depth[val] = tyByte, c.cur
+	none := "(none : Option (" + c.t.retLean + "))"
+	var body string
+	if withRet {
+		c.loopRet = func(v string) string { return "(some " + v + ")" }
+		body, err = c.block(sp.body, func() (string, error) { return none, nil })
+		c.loopRet = nil
+	} else {
+		body, err = c.block(sp.body, func() (string, error) { return tuple(), nil })
 	}
-	body, err := c.block(x.Body.List, func() (string, error) { return tuple(), nil })
 	c.cur--
 	c.vars, c.depth = savedVars, savedDepth
 	if err != nil {
 		return "", err
 	}
-	binder := "x_"
-	pre := ""
-	list := s
-	if key != "" || val != "" {
-		// elements paired with their index
-		list = fmt.Sprintf("(List.zip (List.range (List.length %s)) %s)", s, s)
-		if key != "" {
-			pre += fmt.Sprintf("(let %s := (Int.ofNat x_.1); ", leanIdent(key))
-			closers++
-		}
-		if val != "" {
-			pre += fmt.Sprintf("(let %s := x_.2; ", leanIdent(val))
-			closers++
-		}
-	}
-	fold := fmt.Sprintf("(List.foldl (fun st_ %s => %s%s%s%s) %s %s)", binder, unpack, pre, body, strings.Repeat(")", closers), tuple(), list)
 	r, err := rest()
 	if err != nil {
 		return "", err
 	}
+	if withRet {
+		// `Option.or st (body)`: once the function has returned (`some`) nothing changes; `Option.getD`:
+		// the value returned from inside the loop, else what follows the loop (no `match`: the term
+		// stays rewritable by lemmas about List.foldl / Option.or)
+		fold := fmt.Sprintf("(List.foldl (fun st_ x_ => (Option.or st_ %s%s%s)) %s %s)", pre, body, strings.Repeat(")", closers), none, sp.list)
+		return fmt.Sprintf("(Option.getD %s %s)", fold, r), nil
+	}
+	fold := fmt.Sprintf("(List.foldl (fun st_ x_ => %s%s%s%s) %s %s)", unpack, pre, body, strings.Repeat(")", closers), tuple(), sp.list)
 	if len(state) == 1 {
 		return fmt.Sprintf("(let %s := %s; %s)", leanIdent(state[0]), fold, r), nil
 	}
@@ -800,82 +936,4 @@ func addTranslated(t trTarget) {
 			return translateTarget(repo, &tt)
 		},
 	})
-}
-
-// A `for _, b := range s` whose body may `return`: a left fold whose state is
-// `Option result` (some = the function has returned) – no other state is
-// supported, i.e. the body must not assign outer variables.
-func (c *trCtx) rangeReturn(x *ast.RangeStmt, s string, rest trCont) (string, error) {
-	if c.t.from != "" || c.t.retLean == "" {
-		return "", trErr("loop with return needs a whole-function target with retLean")
-	}
-	c.allowLoopReturn = true
-	state, err := c.assigned(x.Body.List)
-	c.allowLoopReturn = false
-	if err != nil {
-		return "", err
-	}
-	if len(state) != 0 {
-		return "", trErr("loop with return that also assigns %v", state)
-	}
-	key, val := "", ""
-	if id, ok := x.Key.(*ast.Ident); ok && id.Name != "_" {
-		key = id.Name
-	}
-	if x.Value != nil {
-		if id, ok := x.Value.(*ast.Ident); ok && id.Name != "_" {
-			val = id.Name
-		}
-	}
-	savedVars := map[string]trTy{}
-	for n, t := range c.vars {
-		savedVars[n] = t
-	}
-	savedDepth := map[string]int{}
-	for n, d := range c.depth {
-		savedDepth[n] = d
-	}
-	c.cur++
-	if key != "" {
-		c.vars[key], c.depth[key] = tyInt, c.cur
-	}
-	if val != "" {
-		c.vars[val], c.depth[val] = tyByte, c.cur
-	}
-	none := "(none : Option (" + c.t.retLean + "))"
-	savedRet := c.loopRet
-	c.loopRet = func(v string) string { return "(some " + v + ")" }
-	body, err := c.block(x.Body.List, func() (string, error) { return none, nil })
-	c.loopRet = savedRet
-	c.cur--
-	c.vars, c.depth = savedVars, savedDepth
-	if err != nil {
-		return "", err
-	}
-	list := s
-	pre, closers := "", 0
-	if key != "" {
-		list = fmt.Sprintf("(List.zip (List.range (List.length %s)) %s)", s, s)
-		pre += fmt.Sprintf("(let %s := (Int.ofNat x_.1); ", leanIdent(key))
-		closers++
-		if val != "" {
-			pre += fmt.Sprintf("(let %s := x_.2; ", leanIdent(val))
-			closers++
-		}
-	} else if val != "" {
-		pre += fmt.Sprintf("(let %s := x_; ", leanIdent(val))
-		closers++
-	}
-	r, err := rest()
-	if err != nil {
-		return "", err
-	}
-	if savedRet != nil {
-		return "", trErr("nested loops with return")
-	}
-	// `Option.or st (body)`: once the function has returned (`some`) nothing changes; `Option.getD`: the
-	// value returned from inside the loop, else what follows the loop (no `match`: the term stays
-	// rewritable by lemmas about List.foldl / Option.or)
-	fold := fmt.Sprintf("(List.foldl (fun st_ x_ => (Option.or st_ %s%s%s)) %s %s)", pre, body, strings.Repeat(")", closers), none, list)
-	return fmt.Sprintf("(Option.getD %s %s)", fold, r), nil
 }
